@@ -415,3 +415,70 @@ pub fn dimension_aliases(prop: &'static str, seed: u64) -> Phase {
         wall_cap_s: 0,
     }
 }
+
+/// The string entry point, structurally: every combination of a head (none, macro 05/06, FNC1, macro+FNC1),
+/// an initial charset switch (none, ECI 26, 27, 3, 11, 13), a body of up to three atoms (a letter, the macro
+/// trailer bytes RS / EOT, GS, upper-shifted bytes that form or break multi-byte UTF-8, a digit pair, a pad),
+/// an optional further charset switch at every position of the body, and a tail (nothing, pad, another switch).
+pub fn c05_string_path_streams() -> Phase {
+    const HEADS: [&[u8]; 5] = [&[], &[236], &[237], &[232], &[236, 232]];
+    const ECI0: [&[u8]; 6] = [&[], &[241, 27], &[241, 28], &[241, 4], &[241, 12], &[241, 14]];
+    const ATOMS: [&[u8]; 10] = [&[66], &[31], &[5], &[30], &[235, 68], &[235, 37], &[235, 99], &[235, 128], &[142], &[129]];
+    const MID: [&[u8]; 3] = [&[241, 27], &[241, 4], &[241, 28]];
+    const TAILS: [&[u8]; 4] = [&[], &[129], &[241, 27], &[241, 4]];
+    const NBODY: u64 = 1 + 10 + 100 + 1000;
+    const NMID: u64 = 1 + 3 * 4;
+    let total = HEADS.len() as u64 * ECI0.len() as u64 * NBODY * NMID * TAILS.len() as u64;
+    let make = move |_ctx: &Ctx, i: u64| -> Trace {
+        let mut r = i;
+        let tail = TAILS[(r % TAILS.len() as u64) as usize];
+        r /= TAILS.len() as u64;
+        let mid = r % NMID;
+        r /= NMID;
+        let body_i = r % NBODY;
+        r /= NBODY;
+        let eci0 = ECI0[(r % ECI0.len() as u64) as usize];
+        r /= ECI0.len() as u64;
+        let head = HEADS[(r % HEADS.len() as u64) as usize];
+        // body atoms
+        let atoms: Vec<usize> = if body_i == 0 {
+            vec![]
+        } else if body_i < 11 {
+            vec![(body_i - 1) as usize]
+        } else if body_i < 111 {
+            let b = body_i - 11;
+            vec![(b / 10) as usize, (b % 10) as usize]
+        } else {
+            let b = body_i - 111;
+            vec![(b / 100) as usize, ((b / 10) % 10) as usize, (b % 10) as usize]
+        };
+        let (mid_eci, mid_pos): (Option<&[u8]>, usize) = if mid == 0 {
+            (None, 0)
+        } else {
+            (Some(MID[((mid - 1) / 4) as usize]), ((mid - 1) % 4) as usize)
+        };
+        let mut data: Vec<u8> = Vec::new();
+        data.extend_from_slice(head);
+        data.extend_from_slice(eci0);
+        for (k, a) in atoms.iter().enumerate() {
+            if let Some(m) = mid_eci {
+                if mid_pos == k {
+                    data.extend_from_slice(m);
+                }
+            }
+            data.extend_from_slice(ATOMS[*a]);
+        }
+        if let Some(m) = mid_eci {
+            if mid_pos >= atoms.len() {
+                data.extend_from_slice(m);
+            }
+        }
+        data.extend_from_slice(tail);
+        Trace { prop: "C05".into(), producer: Producer::Stream { data }, faults: vec![] }
+    };
+    Phase {
+        source: Source::Sweep { name: "sweep_string_path_structured_streams".into(), prop: "C05".into(), make: Box::new(make) },
+        runs: total,
+        wall_cap_s: 0,
+    }
+}
